@@ -420,7 +420,7 @@ def t_case_const(tr: Tr, sems=("A", "B", "C", "D", "E")):
     for sem in sems:
         tr2 = Tr(tr.w, "quick", sem=sem)
         for nb in (1, 2, 3):
-            for kind in ("bool", "unit", "int", "nil", "cons", "pair", "bytes"):
+            for kind in ("bool", "unit", "int", "nil", "cons", "cons1", "cons4", "pair", "bytes"):
                 ctx = fresh_obj("ctx", "Context")
                 env, base, ln = tr2.env_sym()
                 branches = [tr2.term(f"b{i}") for i in range(nb)]
@@ -438,12 +438,16 @@ def t_case_const(tr: Tr, sems=("A", "B", "C", "D", "E")):
                     c = w.c_int(n)
                 elif kind == "nil":
                     c = w.adt("Constant", "ProtoList", ity, VecV(Arr(())))
-                elif kind == "cons":
-                    h, t2 = w.c_int(z3.Int(fresh("h"))), w.c_int(z3.Int(fresh("t")))
-                    c = w.adt("Constant", "ProtoList", ity, VecV(Arr((h, t2))))
+                elif kind in ("cons", "cons1", "cons4"):
+                    elems = tuple(w.c_int(z3.Int(fresh("h"))) for _ in range({"cons": 2, "cons1": 1, "cons4": 4}[kind]))
+                    c = w.adt("Constant", "ProtoList", ity, VecV(Arr(elems)))
+                    # the branch receives the head and then the rest of the list, in order
+                    want_args = [w.con(elems[0]), w.con(w.adt("Constant", "ProtoList", ity, VecV(Arr(elems[1:]))))]
+                    kind = "cons"
                 elif kind == "pair":
                     p1, p2 = w.c_int(z3.Int(fresh("p"))), w.c_int(z3.Int(fresh("q")))
                     c = w.adt("Constant", "ProtoPair", ity, ity, tr2.rc(p1), tr2.rc(p2))
+                    want_args = [w.con(p1), w.con(p2)]
                 else:
                     c = w.c_bytes(z3.Const(fresh("bs"), ByteSeq))
                 outs = only_outcome(tr2.ret(o.state, f[0], w.con(c)), "casec/ret")
@@ -478,6 +482,10 @@ def t_case_const(tr: Tr, sems=("A", "B", "C", "D", "E")):
                             f3 = expect_state(tr2, o3, "Compute")
                             if f3 is None:
                                 raise Fail(f"case on {kind} constant: argument {i} missing", None, f"case const args {kind}")
+                            if kind in ("cons", "pair"):
+                                want_env = BoxV(VecV(Arr((want_args[i],))), "Rc")
+                                require(tr2, o3, seq(tr2, f3[1], want_env), f"case on {kind} constant: argument {i} passed to the branch is not the "
+                                        + (("head", "tail (rest of the list, in order)") if kind == "cons" else ("first component", "second component"))[i], f"case const arg value {kind}")
                             k, cur = f3[0], o3
                         require(tr2, cur, seq(tr2, k, ctx), f"case on {kind} constant: wrong number of arguments pushed", f"case const args {kind}")
                     else:
